@@ -10,13 +10,25 @@ fd, xmlp = tempfile.mkstemp(suffix=".xml"); os.close(fd)
 env = dict(os.environ, PYTHONPATH=os.path.join(tree, "src"), PYTHONDONTWRITEBYTECODE="1")
 env.pop("URLLIB3_VERIF", None)
 cmd = ["/venv/bin/python", "-m", "pytest", "-q", "-p", "no:cacheprovider", "--timeout=120", "--continue-on-collection-errors", "--junitxml=" + xmlp] + extra
+import time
+proc = subprocess.Popen(cmd, cwd=tree, env=env, stdout=subprocess.PIPE, stderr=subprocess.STDOUT, text=True)
+t0 = time.time(); done_at = None
+while proc.poll() is None:
+    time.sleep(2)
+    # pytest sometimes hangs at interpreter exit on this machine after the junit file was written: once the file is
+    # there and the process has not exited 20 s later, kill it and judge by the file
+    if os.path.getsize(xmlp) > 0:
+        done_at = done_at or time.time()
+        if time.time() - done_at > 20:
+            print("pytest wrote its junit file but did not exit; killed"); proc.kill(); break
+    if time.time() - t0 > 1500:
+        print("pinned run did not finish within 1500 s; killed"); proc.kill(); break
+class p:  # noqa: N801
+    stdout = ""
 try:
-    p = subprocess.run(cmd, cwd=tree, env=env, stdout=subprocess.PIPE, stderr=subprocess.STDOUT, text=True, timeout=900)
-except subprocess.TimeoutExpired as e:
-    # pytest sometimes hangs at interpreter exit on this (loaded) machine after the junit file was written: judge by the file
-    print("pinned run did not exit within 900 s (killed); judging by the junit file")
-    class p:  # noqa: N801
-        stdout = (e.stdout or b"").decode("utf-8", "replace") if isinstance(e.stdout, bytes) else (e.stdout or "")
+    p.stdout = proc.communicate(timeout=20)[0] or ""
+except Exception:  # noqa: BLE001
+    pass
 passed = set()
 try:
     for tc in (ET.parse(xmlp).getroot().iter("testcase") if os.path.getsize(xmlp) else []):
